@@ -85,14 +85,14 @@ pub fn plan(property: &str) -> Option<CheckPlan> {
         "C01" => Some(CheckPlan {
             property: "C01",
             level: "exploration",
-            rule: "scripts are generated from VERIF_SEED (registrations, feeds, gate toggles, stream ends in seeded order); a run is non-trivial when >= 2 messages were accepted, >= 1 subscriber registered and at least one Pending outcome or stream end actually fired; distinct = distinct script bodies among the non-trivial runs",
+            rule: "scripts are generated from VERIF_SEED (registrations, feeds, gate toggles, stream ends in seeded order); a run is non-trivial when >= 2 messages were accepted, >= 1 subscriber registered and at least one Pending outcome or stream end actually fired; distinct = distinct script bodies among the non-trivial runs; the pubsub-shutdown family closes the registration channel at a seeded step (the last clause, nothing accepted is left unflushed once every subscriber accepts data, also binds a router that is told to stop)",
             assumptions: vec![
                 "mock sink models FramedWrite<SendStream>: start_send buffers, flush/close deliver when the transport accepts, poll_ready flushes at the back-pressure boundary",
                 "a router that returns Pending in a poll where no sink was Pending has drained its registration channel",
             ],
             real: R_REAL.to_vec(),
             stubbed: R_STUB.to_vec(),
-            items: vec![PlanItem { family: &rsim::pubsub::PS_CLEAN, quick: 200_000, thorough: 5_000_000 }, PlanItem { family: &rsim::pubsub::PS_FAIL_RANDOM, quick: 60_000, thorough: 1_500_000 }, PlanItem { family: &nsim::multitopic::MULTI_TOPIC, quick: 300, thorough: 10_000 }, PlanItem { family: &nsim::chaos::CHAOS, quick: 150, thorough: 6_000 }, PlanItem { family: &nsim::regrace::REG_RACE, quick: 200, thorough: 8_000 }],
+            items: vec![PlanItem { family: &rsim::pubsub::PS_CLEAN, quick: 200_000, thorough: 5_000_000 }, PlanItem { family: &rsim::pubsub::PS_FAIL_RANDOM, quick: 60_000, thorough: 1_500_000 }, PlanItem { family: &rsim::pubsub::PS_SHUTDOWN, quick: 40_000, thorough: 1_000_000 }, PlanItem { family: &nsim::multitopic::MULTI_TOPIC, quick: 300, thorough: 10_000 }, PlanItem { family: &nsim::chaos::CHAOS, quick: 150, thorough: 6_000 }, PlanItem { family: &nsim::regrace::REG_RACE, quick: 200, thorough: 8_000 }],
         }),
         "C02" => Some(CheckPlan {
             property: "C02",
@@ -123,11 +123,11 @@ pub fn plan(property: &str) -> Option<CheckPlan> {
         "C10" => Some(CheckPlan {
             property: "C10",
             level: "exploration",
-            rule: "1-5 replier registrations and departures interleaved with requests, replies and gate toggles (rejected repliers' sinks included); non-trivial by the request/reply family rule; distinct = distinct script bodies",
+            rule: "1-5 replier registrations and departures interleaved with requests, replies and gate toggles (rejected repliers' sinks included); the reqrep-fail-random family adds sinks that fail, among them the rejected repliers' (the bound replier's traffic must stay unaffected by whatever happens to a rejected one); non-trivial by the request/reply family rule; distinct = distinct script bodies",
             assumptions: vec!["a replier counts as still bound until a parked poll has happened after its stream end"],
             real: R_REAL.to_vec(),
             stubbed: R_STUB.to_vec(),
-            items: vec![PlanItem { family: &rsim::reqrep::RR_REPLIERS, quick: 150_000, thorough: 4_000_000 }, PlanItem { family: &nsim::shutdown::SHUTDOWN_LIVE, quick: 60, thorough: 2_000 }, PlanItem { family: &nsim::regrace::REG_RACE, quick: 200, thorough: 8_000 }],
+            items: vec![PlanItem { family: &rsim::reqrep::RR_REPLIERS, quick: 150_000, thorough: 4_000_000 }, PlanItem { family: &rsim::reqrep::RR_FAIL_RANDOM, quick: 50_000, thorough: 1_500_000 }, PlanItem { family: &nsim::shutdown::SHUTDOWN_LIVE, quick: 60, thorough: 2_000 }, PlanItem { family: &nsim::regrace::REG_RACE, quick: 200, thorough: 8_000 }],
         }),
         "C15" => Some(CheckPlan {
             property: "C15",
